@@ -234,18 +234,20 @@ pub fn observe_cp(x: &client_pin::Request<'_>) -> V {
     m.done()
 }
 
+pub fn observe_cm_params(p: &credential_management::SubcommandParameters<'_>) -> V {
+    let mut m = MapB::new();
+    m.opt("rpIDHash", p.rp_id_hash.map(|h| b(&h[..])));
+    m.opt("credentialID", p.credential_id.as_ref().map(observe_descriptor_ref));
+    m.opt("user", p.user.as_ref().map(observe_user));
+    m.done()
+}
+
 pub fn observe_cm(x: &credential_management::Request<'_>) -> V {
     let mut m = MapB::new();
     m.put("subCommand", V::U(x.sub_command as u64));
     m.opt(
         "subCommandParams",
-        x.sub_command_params.as_ref().map(|p| {
-            let mut m = MapB::new();
-            m.opt("rpIDHash", p.rp_id_hash.map(|h| b(&h[..])));
-            m.opt("credentialID", p.credential_id.as_ref().map(observe_descriptor_ref));
-            m.opt("user", p.user.as_ref().map(observe_user));
-            m.done()
-        }),
+        x.sub_command_params.as_ref().map(observe_cm_params),
     );
     m.opt("pinUvAuthProtocol", x.pin_protocol.as_ref().map(u));
     m.opt("pinUvAuthParam", x.pin_auth.map(|p| b(&**p)));
